@@ -79,7 +79,7 @@ func docWitnesses() []docWitness {
 			g, ok := lastOf(up)
 			return g, 50, ok
 		}, "50"},
-		{"trend.MovingMin", "Props.C01Doc.C01_MovingMin_zero_refuted", "moving minimum of the last 3 values of [0 5 7 8], first value", func() (float64, float64, bool) {
+		{"trend.MovingMin", "Props.C01Doc.C01_MovingMin_all (formerly refuted on zeros; fixed)", "moving minimum of the last 3 values of [0 5 7 8], first value", func() (float64, float64, bool) {
 			xs, ok := drainT(trend.NewMovingMinWithPeriod[float64](3).Compute(chanOf(0, 5, 7, 8)), 3*time.Second)
 			if !ok || len(xs) == 0 {
 				return math.NaN(), 0, false
